@@ -241,7 +241,7 @@ def blocks_to_bytes(
             block_index_to_instruction_offset[block_index] = current_instruction_offset
             for instruction_index, instruction in enumerate(block):
                 arg_value = args[block_index, instruction_index]
-                n_instructions = instruction._n_args_override or _instrsize(arg_value)
+                n_instructions = _n_args(instruction, arg_value)
                 current_instruction_offset += n_instructions
         # Then go and update all the jump instructions. If any of them
         # change the number of instructions needed for the arg, repeat
@@ -251,7 +251,7 @@ def blocks_to_bytes(
             for instruction_index, instruction in enumerate(block):
                 arg = instruction.arg
                 arg_value = args[block_index, instruction_index]
-                n_instructions = instruction._n_args_override or _instrsize(arg_value)
+                n_instructions = _n_args(instruction, arg_value)
                 current_instruction_offset += n_instructions
 
                 if isinstance(arg, Jump):
@@ -268,10 +268,7 @@ def blocks_to_bytes(
                     # If we aren't overriding and the new size of instructions is not
                     # the same as the old, mark this as updated, so we re-calculate
                     # block positions!
-                    if (
-                        not instruction._n_args_override
-                        and n_instructions != _instrsize(new_arg_value)
-                    ):
+                    if n_instructions != _n_args(instruction, new_arg_value):
                         changed_instruction_lengths = True
                     args[block_index, instruction_index] = new_arg_value
 
@@ -289,7 +286,7 @@ def blocks_to_bytes(
                 )
 
             arg_value = args[block_index, instruction_index]
-            n_args = instruction._n_args_override or _instrsize(arg_value)
+            n_args = _n_args(instruction, arg_value)
             # Duplicate semantics of write_op_arg
             # to produce the the right number of extended arguments
             # https://github.com/python/cpython/blob/b2e5794870eb4728ddfaafc0f79a40299576434f/Python/wordcode_helpers.h#L22-L44
@@ -531,6 +528,14 @@ def _parse_bytes(b: bytes) -> Iterable[tuple[int, int, int, int, int]]:
             yield (opcode, arg, n_args, first_offset, next_offset)
             n_args = 0
             arg = 0
+
+
+def _n_args(instruction: Instruction, arg_value: int) -> int:
+    """
+    The number of code units of an instruction: the number it was decoded with, but
+    at least as many as its arg needs (it can have grown in data edited by hand).
+    """
+    return max(instruction._n_args_override or 1, _instrsize(arg_value))
 
 
 def _instrsize(arg: int) -> int:
